@@ -7,8 +7,8 @@ Open Scope string_scope.
 
 (* aggregation literal -> the shape of the SQL the function returns (ShReject: it raises ValueError) *)
 Definition sym_shapes : list (string * shape) :=
-  [("sum", ShSumDiff (1048576)%Z);
-   ("avg", ShAvg (1048576)%Z);
+  [("sum", ShSumDiff (1099511627776)%Z);
+   ("avg", ShAvg (1099511627776)%Z);
    ("count", ShCountDistinctKey);
    ("count_distinct", ShCountDistinctMeasure);
    ("min", ShPlain "min");
